@@ -80,6 +80,10 @@ class SimTransport(asyncio.Transport):
         self._protocol.connection_lost(exc)
 
     def write(self, data):
+        if self.eof_written:
+            # as the selector socket transport: checked before anything else, also after close()
+            self.trace.ev("net", "write_after_eof", n=len(data))
+            raise RuntimeError("Cannot call write() after write_eof()")
         if self._closing or self._lost:
             self.trace.ev("net", "write_after_close", n=len(data))
             return
